@@ -357,6 +357,8 @@ def candidates_for(run, info, before, after, host_before, host_after):
     def pr_alts(pr, status):
         st_before = {p['id']: p['state'] for p in host_before}
         st_after = {p['id']: p['state'] for p in host_after}
+        if status == 'ResetComplete':      # the command runs before the DECLINED state is looked at
+            return [['reset %d %s %s' % (pr['id'], pr['src'], dest_code(pr['dst']))]]
         if st_before.get(pr['id']) == 'DECLINED':
             if status in ('PullRequestDeclined', 'NothingToDo'):
                 child = any(st_before.get(i) == 'OPEN' and st_after.get(i) == 'DECLINED'
